@@ -13,7 +13,7 @@ ALL = [f'C{i:02d}' for i in range(1, 21)]
 
 def run(job):
     d, all_checks = job
-    patch = os.path.join(d, 'patch.diff')
+    patch = os.path.abspath(os.path.join(d, 'patch.diff'))
     files = re.findall(r'^\+\+\+ b/(\S+)', open(patch).read(), re.M)
     checks = ALL if all_checks else sorted({c for f in files for c in RELEVANT.get(f, ALL)})
     tmp = tempfile.mkdtemp(prefix='vf-rf-')
